@@ -205,6 +205,8 @@ class Target(object):
     ctor_stream = None       # index of the stream whose first segment may go to the constructor
     combo = False            # has encrypt_and_digest / decrypt_and_verify
     combo_out = False        # ... with an output= parameter
+    combo_multi = False      # ... documented to take "the piece of data" (may follow encrypt()/decrypt() calls)
+    ref_any_len = False      # compare with the reference at every stream length (default: up to 700 bytes)
     primary = False          # gets the full grid in the quick tier
 
     def __init__(self, spec):
@@ -509,6 +511,7 @@ class AeadTarget(Target):
             self.keyname = "ChaCha20-Poly1305"
             ca, cm = 16, 64
             self.combo_out = False
+            self.combo_multi = True
             has_out = True
         else:
             self.mod = _cmod(cname)
@@ -523,6 +526,7 @@ class AeadTarget(Target):
             ca = cm = bs
             has_out = mode != "OCB"
             self.combo_out = mode != "OCB"
+            self.combo_multi = mode != "OCB"     # OCB documents "the entire message"
             if mode == "CCM":
                 self.multi_m = bool(variant[1])
         ext_m = ()
